@@ -17,6 +17,9 @@ pub struct Case {
     /// index of the observer module
     pub obs: usize,
     pub name: String,
+    /// 0: modules are added in the given order (observer first); otherwise the seed of a shuffle
+    #[serde(default)]
+    pub ord: u8,
 }
 
 pub struct Scoping;
@@ -129,13 +132,15 @@ pub fn gen_case(t: &mut Tape) -> Case {
         }],
     });
     prog.mods[obs].ext_vals.push(ExtVal {
+        sty: 0,
         vis: true,
         name: "gv".into(),
         ty: Ty::Named(name.clone()),
         addr: Some(Num::d(0x5000)),
         doc: vec![],
     });
-    Case { prog, w, obs, name }
+    let ord = if t.chance(1, 2) { 0 } else { 1 + t.below(200) as u8 };
+    Case { prog, w, obs, name, ord }
 }
 
 impl Prop for Scoping {
@@ -145,7 +150,7 @@ impl Prop for Scoping {
         "C11/scoping".into()
     }
     fn rule(&self) -> String {
-        "2-5 modules with paths of depth 1-3; the same short name (also a built-in's name) defined in several of them as packed types / extern types of pairwise distinct sizes; an observer module with an optional local definition and 0-5 interleaved `use path::Name` / `use path` imports (some dangling, some for a decoy). Oracle: reference binding (by-name import, last wins > built-in > same module > module imports in order) decides; the resolved size of `Obs` equals size(D)*3 + pointer width, and the emitted field, pointee, array element, parameter, return and extern-value types are exactly the fully qualified path of D (syn); no binding => Err. Non-trivial: >= 2 candidate definitions reachable through different rules".into()
+        "2-5 modules with paths of depth 1-3; the same short name (also a built-in's name) defined in several of them as packed types / extern types of pairwise distinct sizes; modules added in the given order (observer first) or shuffled; an observer module with an optional local definition and 0-5 interleaved `use path::Name` / `use path` imports (some dangling, some for a decoy). Oracle: reference binding (by-name import, last wins > built-in > same module > module imports in order) decides; the resolved size of `Obs` equals size(D)*3 + pointer width, and the emitted field, pointee, array element, parameter, return and extern-value types are exactly the fully qualified path of D (syn); no binding => Err. Non-trivial: >= 2 candidate definitions reachable through different rules".into()
     }
     fn gen(&self, t: &mut Tape) -> Case {
         gen_case(t)
@@ -175,7 +180,17 @@ impl Prop for Scoping {
         }
         let nontrivial = rules >= 2 || by_name >= 2 || via_mod >= 2;
         let mut classes = vec![format!("rules:{rules}"), format!("by_name_imports:{}", by_name.min(3)), format!("module_imports_with_name:{}", via_mod.min(3))];
-        let res = build_mem(&print_prog(&c.prog), c.w as usize, &MemOpts::default());
+        // the binding must not depend on the order in which the modules are added
+        let mut order: Vec<usize> = (0..c.prog.mods.len()).collect();
+        if c.ord != 0 {
+            let mut mix = crate::tape::Mix(c.ord as u64);
+            for i in (1..order.len()).rev() {
+                let j = mix.below(i as u64 + 1) as usize;
+                order.swap(i, j);
+            }
+            classes.push(format!("observer-added-at:{}", order.iter().position(|&x| x == c.obs).unwrap_or(0).min(3)));
+        }
+        let res = build_mem(&print_prog(&c.prog), c.w as usize, &MemOpts { order: Some(&order), ..Default::default() });
         let o = match (&bound, &res) {
             (_, Res::Panic(p)) => Outcome::fail("panic", format!("pyxis panicked: {p}")),
             (None, Res::Err(_)) => Outcome::pass(nontrivial),
@@ -257,7 +272,7 @@ impl Prop for Scoping {
         o.with_classes(classes)
     }
     fn show(&self, c: &Case) -> Value {
-        json!({"width": c.w, "name": c.name, "pyxis": prog_text(&c.prog)})
+        json!({"width": c.w, "name": c.name, "module_order_seed": c.ord, "pyxis": prog_text(&c.prog)})
     }
 }
 
